@@ -1018,3 +1018,693 @@ Proof.
       unfold n, zlen. do 3 f_equal. lia. }
   rewrite Hends. cbn [fst snd]. unfold group_bin. fold n. reflexivity.
 Qed.
+
+(* ---------------------------------------------------- tilings, position by position *)
+Lemma tiled_nth c s l : Tiled c s l ->
+  forall i x, nth_error l i = Some x ->
+    bchrom x = c /\ bstart x < bend x /\
+    bstart x = match i with O => s | S j => bend (nth j l bin0) end.
+Proof.
+  induction 1 as [|s e l Hse HT IH]; intros i x Hi; [now rewrite nth_error_nil' in Hi|].
+  destruct i as [|i]; cbn [nth_error] in Hi.
+  - injection Hi as <-. unfold bchrom, bstart, bend; cbn. auto.
+  - destruct (IH i x Hi) as (A & B & D). split; [exact A|]. split; [exact B|].
+    rewrite D. destruct i as [|i]; reflexivity.
+Qed.
+
+Lemma tiled_intro c l : forall s,
+  (forall i x, nth_error l i = Some x ->
+     bchrom x = c /\ bstart x < bend x /\ bstart x = match i with O => s | S j => bend (nth j l bin0) end) ->
+  Tiled c s l.
+Proof.
+  induction l as [|[[c' s'] e'] l IH]; intros s H; [constructor|].
+  destruct (H 0%nat _ eq_refl) as (A & B & D). unfold bchrom, bstart, bend in A, B, D; cbn in A, B, D. subst.
+  constructor; [exact B|]. apply IH. intros i x Hi.
+  destruct (H (S i) x Hi) as (A & B' & D). split; [exact A|]. split; [exact B'|].
+  rewrite D. destruct i; reflexivity.
+Qed.
+
+Lemma tiled_mono c s l : Tiled c s l ->
+  forall i j, (i <= j < length l)%nat ->
+    bstart (nth i l bin0) <= bstart (nth j l bin0) /\ bend (nth i l bin0) <= bend (nth j l bin0).
+Proof.
+  intros HT i j. induction j as [|j IH]; intros Hij.
+  - replace i with 0%nat by lia. lia.
+  - destruct (Nat.eq_dec i (S j)) as [->|Hne]; [lia|].
+    destruct (IH ltac:(lia)) as [A B].
+    destruct (tiled_nth c s l HT (S j) (nth (S j) l bin0)) as (_ & P & Q); [apply nth_error_nth'; lia|].
+    destruct (tiled_nth c s l HT j (nth j l bin0)) as (_ & P' & _); [apply nth_error_nth'; lia|].
+    lia.
+Qed.
+
+Lemma tiled_start_ge c s l : Tiled c s l -> forall i, (i < length l)%nat -> s <= bstart (nth i l bin0).
+Proof.
+  intros HT i Hi. destruct (tiled_mono c s l HT 0 i ltac:(lia)) as [A _].
+  destruct (tiled_nth c s l HT 0%nat (nth 0 l bin0)) as (_ & _ & Q); [apply nth_error_nth'; lia|]. lia.
+Qed.
+
+Lemma coarsen_block_length k blk : 1 <= k -> zlen (coarsen_block k blk) = cdiv (zlen blk) k.
+Proof.
+  intros Hk. unfold coarsen_block, zlen. rewrite map_length, zrange_length.
+  assert (0 <= cdiv (Z.of_nat (length blk)) k) by (unfold cdiv; nia). lia.
+Qed.
+
+Lemma coarsen_block_nth k blk q : 1 <= k -> 0 <= q < cdiv (zlen blk) k ->
+  nth_error (coarsen_block k blk) (Z.to_nat q) = Some (group_bin k blk q).
+Proof.
+  intros Hk Hq. unfold coarsen_block. rewrite nth_error_map, nth_error_zrange by lia.
+  cbn. do 2 f_equal. lia.
+Qed.
+
+(** the coarsened block is again a tiling of the same chromosome, from the same start to the same end *)
+Theorem coarsen_block_tiled k c s blk : 1 <= k -> Tiled c s blk -> blk <> [] ->
+  Tiled c s (coarsen_block k blk) /\ coarsen_block k blk <> [] /\ chrom_end (coarsen_block k blk) = chrom_end blk.
+Proof.
+  intros Hk HT Hne. set (n := zlen blk).
+  assert (Hn : 1 <= n) by (unfold n, zlen; destruct blk; [congruence|cbn; lia]).
+  assert (HN : 1 <= cdiv n k) by (pose proof (cdiv_gt_q n k 0 Hk ltac:(lia)); lia).
+  assert (Hnth : forall q, 0 <= q < cdiv n k -> nth_error (coarsen_block k blk) (Z.to_nat q) = Some (group_bin k blk q))
+    by (intros; now apply coarsen_block_nth).
+  assert (Hlen : zlen (coarsen_block k blk) = cdiv n k) by now apply coarsen_block_length.
+  split; [|split].
+  - apply tiled_intro. intros i x Hi.
+    assert (Hi' : (i < length (coarsen_block k blk))%nat) by (apply nth_error_Some; congruence).
+    unfold zlen in Hlen. pose proof (Hnth (Z.of_nat i) ltac:(lia)) as Hi2.
+    rewrite Nat2Z.id in Hi2. rewrite Hi2 in Hi. injection Hi as <-.
+    assert (Hqk : Z.of_nat i * k < n) by (apply lt_cdiv_iff; lia).
+    set (a := Z.to_nat (Z.of_nat i * k)). set (b := Z.to_nat (Z.min (Z.of_nat i * k + k) n - 1)).
+    assert (Hab : (a <= b < length blk)%nat) by (unfold a, b, n, zlen in *; lia).
+    destruct (tiled_nth c s blk HT a (nth a blk bin0)) as (A & B & D); [apply nth_error_nth'; lia|].
+    destruct (tiled_mono c s blk HT a b Hab) as [_ Me].
+    unfold group_bin. fold n a b.
+    split; [exact A|]. split; [unfold bstart, bend in *; cbn [fst snd] in *; lia|].
+    destruct i as [|i].
+    + subst a. cbn in D. exact D.
+    + assert (Ha : a = S (Z.to_nat (Z.of_nat (S i) * k - 1))) by (unfold a; nia).
+      pose proof (Hnth (Z.of_nat i) ltac:(lia)) as Hprev. rewrite Nat2Z.id in Hprev.
+      rewrite (nth_error_nth _ _ bin0 Hprev).
+      unfold group_bin. fold n. clearbody a. subst a.
+      unfold bstart, bend in *; cbn [fst snd] in *. rewrite D. do 3 f_equal. nia.
+  - intros E. rewrite E in Hlen. unfold zlen in Hlen. cbn in Hlen. lia.
+  - unfold chrom_end. rewrite !last_nth_bin.
+    unfold zlen in Hlen.
+    rewrite (nth_error_nth _ _ bin0 (x := group_bin k blk (cdiv n k - 1))).
+    2:{ rewrite <- (Hnth (cdiv n k - 1)) by lia. f_equal. lia. }
+    unfold group_bin, bend at 1; cbn [snd]. fold n. do 3 f_equal.
+    assert (n <= (cdiv n k - 1) * k + k) by (unfold cdiv; nia). unfold n, zlen in *. lia.
+Qed.
+
+(** coarsen_bins on a valid table, chromosome block by chromosome block *)
+Theorem coarsen_bins_spec blocks k : 1 <= k -> ValidBlocks blocks ->
+  let nb := map (coarsen_block k) blocks in
+  coarsen_bins (concat blocks) (map chrom_end blocks) k = concat nb /\
+  ValidBlocks nb /\ map chrom_end nb = map chrom_end blocks /\ map zlen nb = map (fun blk => cdiv (zlen blk) k) blocks.
+Proof.
+  intros Hk HV nb. split; [|split; [|split]].
+  - unfold coarsen_bins.
+    rewrite (map_chroms_valid (fun c g => coarsen_group k (znth (map chrom_end blocks) c 0) g) blocks HV).
+    f_equal. unfold nb. apply nth_error_ext'. intros i. rewrite !nth_error_map.
+    destruct (nth_error blocks i) as [blk|] eqn:E.
+    + rewrite (nth_error_enumerate _ _ _ E). cbn [option_map fst snd]. f_equal.
+      rewrite (znth_nth_error (map chrom_end blocks) i 0 (chrom_end blk)) by (rewrite nth_error_map, E; reflexivity).
+      apply coarsen_group_spec; [exact Hk|]. now destruct (HV i blk E).
+    + assert (H2 : nth_error (enumerate blocks) i = None) by (apply nth_error_None; rewrite enumerate_length; now apply nth_error_None).
+      now rewrite H2.
+  - intros i nblk Hi. unfold nb in Hi. rewrite nth_error_map in Hi.
+    destruct (nth_error blocks i) as [blk|] eqn:E; [|discriminate]. injection Hi as <-.
+    destruct (HV i blk E) as [Hne HT].
+    destruct (coarsen_block_tiled k _ 0 blk Hk HT Hne) as (A & B & _). auto.
+  - unfold nb. rewrite map_map. apply nth_error_ext'. intros i. rewrite !nth_error_map.
+    destruct (nth_error blocks i) as [blk|] eqn:E; [|reflexivity]. cbn. f_equal.
+    destruct (HV i blk E) as [Hne HT].
+    now destruct (coarsen_block_tiled k _ 0 blk Hk HT Hne) as (_ & _ & D).
+  - unfold nb. rewrite map_map. apply map_ext. intros blk. now apply coarsen_block_length.
+Qed.
+
+(* ================================================= re-binning by start coordinate *)
+Lemma ssr_app_le P R x : Forall (fun v => v <= x) P ->
+  searchsorted_right (P ++ R) x = zlen P + searchsorted_right R x.
+Proof.
+  unfold zlen. induction 1 as [|v P Hv HF IH]; [cbn; lia|].
+  cbn [app searchsorted_right length]. destruct (v <=? x) eqn:E; [|lia]. rewrite IH. lia.
+Qed.
+
+Lemma ssr_app_hd Q R x : (R = [] \/ x < hd 0 R) -> searchsorted_right (Q ++ R) x = searchsorted_right Q x.
+Proof.
+  intros HR. induction Q as [|v Q IH]; cbn [app searchsorted_right].
+  - destruct HR as [->|HR]; [reflexivity|]. destruct R as [|r R]; [reflexivity|]. cbn in *.
+    destruct (r <=? x) eqn:E; [lia|reflexivity].
+  - destruct (v <=? x); [now rewrite IH|reflexivity].
+Qed.
+
+Lemma tiled_ssr c A s : forall s0 l, Tiled c s0 l ->
+  forall q y, nth_error l q = Some y -> bstart y <= s < bend y ->
+  searchsorted_right (map (fun z => A + bstart z) l) (A + s) = Z.of_nat q + 1.
+Proof.
+  intros s0 l HT. induction HT as [|s0 e l Hse HT IH]; intros q y Hq Hs; [now rewrite nth_error_nil' in Hq|].
+  destruct q as [|q]; cbn [nth_error] in Hq.
+  - injection Hq as <-. unfold bstart, bend in Hs; cbn [fst snd] in Hs.
+    cbn [map searchsorted_right]. unfold bstart at 1; cbn [fst snd].
+    destruct (A + s0 <=? A + s) eqn:E; [|lia].
+    assert (H0 : searchsorted_right (map (fun z => A + bstart z) l) (A + s) = 0).
+    { inversion HT as [|? e' l' He' HT']; subst; [reflexivity|].
+      cbn [map searchsorted_right]. unfold bstart at 1; cbn [fst snd].
+      destruct (A + e <=? A + s) eqn:E'; [lia|reflexivity]. }
+    rewrite H0. lia.
+  - cbn [map searchsorted_right]. unfold bstart at 1; cbn [fst snd].
+    assert (Hge : e <= bstart y).
+    { assert (Hql : (q < length l)%nat) by (apply nth_error_Some; congruence).
+      pose proof (tiled_start_ge c e l HT q Hql) as H. rewrite (nth_error_nth _ _ bin0 Hq) in H. exact H. }
+    destruct (A + s0 <=? A + s) eqn:E; [|lia]. rewrite (IH q y Hq Hs). lia.
+Qed.
+
+(** absolute start coordinates, chromosome block by chromosome block *)
+Fixpoint sa_from (A : Z) (NB : list (list bin)) : list Z :=
+  match NB with
+  | [] => []
+  | b :: r => map (fun y => A + bstart y) b ++ sa_from (A + chrom_end b) r
+  end.
+
+Lemma start_abspos_sa_gen sizes : forall o NB A, BlocksFrom o NB ->
+  (forall j, (j < length NB)%nat -> znth (chrom_abspos sizes) (o + Z.of_nat j) 0 = A + sumZ (firstn j (map chrom_end NB))) ->
+  map (fun y => znth (chrom_abspos sizes) (bchrom y) 0 + bstart y) (concat NB) = sa_from A NB.
+Proof.
+  intros o NB A HB. revert A. induction HB as [|o blk rest Hne HT HB IH]; intros A HA; [reflexivity|].
+  cbn [concat sa_from]. rewrite map_app. f_equal.
+  - apply map_ext_in. intros y Hy. rewrite (tiled_chrom _ _ _ _ HT Hy).
+    specialize (HA 0%nat ltac:(cbn; lia)). cbn [firstn sumZ fold_right] in HA.
+    replace (o + Z.of_nat 0) with o in HA by lia. rewrite HA. lia.
+  - apply IH. intros j Hj. specialize (HA (S j) ltac:(cbn; lia)).
+    replace (o + 1 + Z.of_nat j) with (o + Z.of_nat (S j)) by lia. rewrite HA.
+    cbn [map firstn sumZ fold_right]. fold (sumZ (firstn j (map chrom_end rest))). lia.
+Qed.
+
+Lemma start_abspos_sa NB : ValidBlocks NB ->
+  start_abspos (concat NB) (map chrom_end NB) = sa_from 0 NB.
+Proof.
+  intros HV. unfold start_abspos. apply (start_abspos_sa_gen _ 0); [now apply valid_blocksfrom|].
+  intros j Hj. unfold chrom_abspos, znth. rewrite Z.add_0_l, Nat2Z.id.
+  rewrite choff_nth by (rewrite map_length; lia). lia.
+Qed.
+
+Definition GoodBlock (b : list bin) : Prop := b <> [] /\ exists c, Tiled c 0 b.
+
+Lemma goodblock_end b : GoodBlock b -> 0 < chrom_end b /\ forall y, In y b -> 0 <= bstart y /\ bstart y < chrom_end b /\ bend y <= chrom_end b.
+Proof.
+  intros [Hne [c HT]]. unfold chrom_end. rewrite last_nth_bin.
+  assert (Hl : (0 < length b)%nat) by (destruct b; [congruence|cbn; lia]).
+  assert (Hy : forall y, In y b -> 0 <= bstart y /\ bstart y < bend y /\ bend y <= bend (nth (length b - 1) b bin0)).
+  { intros y Hy. apply In_nth_error in Hy as [i Hi].
+    assert (Hil : (i < length b)%nat) by (apply nth_error_Some; congruence).
+    destruct (tiled_nth c 0 b HT i y Hi) as (_ & P & _).
+    pose proof (tiled_start_ge c 0 b HT i Hil) as G. rewrite (nth_error_nth _ _ bin0 Hi) in G.
+    destruct (tiled_mono c 0 b HT i (length b - 1) ltac:(lia)) as [_ M]. rewrite (nth_error_nth _ _ bin0 Hi) in M.
+    lia. }
+  split.
+  - specialize (Hy (nth (length b - 1) b bin0) ltac:(apply nth_In; lia)). lia.
+  - intros y Hin. specialize (Hy y Hin). lia.
+Qed.
+
+Lemma ssr_sa NB : Forall GoodBlock NB ->
+  forall i A nblk q y s, nth_error NB i = Some nblk -> nth_error nblk q = Some y ->
+  bstart y <= s < bend y ->
+  searchsorted_right (sa_from A NB) (A + sumZ (firstn i (map chrom_end NB)) + s)
+  = sumZ (firstn i (map zlen NB)) + Z.of_nat q + 1.
+Proof.
+  induction 1 as [|b r Hb HF IH]; intros i A nblk q y s Hi Hq Hs; [now rewrite nth_error_nil' in Hi|].
+  destruct (goodblock_end b Hb) as [Hce Hyb].
+  destruct i as [|i]; cbn [nth_error] in Hi.
+  - injection Hi as ->. cbn [map firstn sumZ fold_right sa_from]. rewrite Z.add_0_r, Z.add_0_l.
+    destruct Hb as [Hne [c HT]].
+    rewrite ssr_app_hd; [now apply (tiled_ssr c A s 0 nblk HT q y)|].
+    destruct r as [|b' r']; [now left|right].
+    inversion HF as [|? ? [Hne' [c' HT']] _]; subst. cbn [sa_from].
+    destruct b' as [|z b']; [congruence|]. inversion HT'; subst. cbn [map app hd]. unfold bstart at 1; cbn [fst snd].
+    specialize (Hyb y (nth_error_In _ _ Hq)). lia.
+  - cbn [map firstn sa_from]. 
+    change (sumZ (chrom_end b :: firstn i (map chrom_end r))) with (chrom_end b + sumZ (firstn i (map chrom_end r))).
+    change (sumZ (zlen b :: firstn i (map zlen r))) with (zlen b + sumZ (firstn i (map zlen r))).
+    assert (Hnn : 0 <= sumZ (firstn i (map chrom_end r))).
+    { apply sumZ_nonneg. apply Forall_forall. intros v Hv.
+      assert (Hv' : In v (map chrom_end r)) by (rewrite <- (firstn_skipn i (map chrom_end r)); apply in_or_app; now left).
+      apply in_map_iff in Hv' as [b0 [<- Hb0]]. rewrite Forall_forall in HF.
+      destruct (goodblock_end b0 (HF b0 Hb0)) as [G _]. lia. }
+    assert (Hs0 : 0 <= s).
+    { rewrite Forall_forall in HF. destruct (goodblock_end nblk (HF nblk (nth_error_In _ _ Hi))) as [_ G].
+      specialize (G y (nth_error_In _ _ Hq)). lia. }
+    rewrite ssr_app_le.
+    + replace (A + (chrom_end b + sumZ (firstn i (map chrom_end r))) + s)
+        with ((A + chrom_end b) + sumZ (firstn i (map chrom_end r)) + s) by lia.
+      rewrite (IH i (A + chrom_end b) nblk q y s Hi Hq Hs). unfold zlen. rewrite map_length. lia.
+    + apply Forall_forall. intros v Hv. apply in_map_iff in Hv as [z [<- Hz]].
+      specialize (Hyb z Hz). lia.
+Qed.
+
+(** old bin m of a block lies inside new bin m/k of the coarsened block *)
+Lemma group_contains k c s blk m x : 1 <= k -> Tiled c s blk -> nth_error blk m = Some x ->
+  let y := group_bin k blk (Z.of_nat m / k) in
+  bstart y <= bstart x < bend y /\ bchrom x = c /\
+  nth_error (coarsen_block k blk) (Z.to_nat (Z.of_nat m / k)) = Some y.
+Proof.
+  intros Hk HT Hm y.
+  assert (Hml : (m < length blk)%nat) by (apply nth_error_Some; congruence).
+  set (q := Z.of_nat m / k) in *.
+  assert (Hq : 0 <= q /\ q * k <= Z.of_nat m < q * k + k) by (unfold q; nia).
+  destruct (tiled_nth c s blk HT m x Hm) as (A & B & _).
+  set (a := Z.to_nat (q * k)). set (b := Z.to_nat (Z.min (q * k + k) (zlen blk) - 1)).
+  assert (Hab : (a <= m <= b)%nat /\ (b < length blk)%nat) by (unfold a, b, zlen; lia).
+  destruct (tiled_mono c s blk HT a m ltac:(lia)) as [M1 _].
+  destruct (tiled_mono c s blk HT m b ltac:(lia)) as [_ M2].
+  rewrite (nth_error_nth _ _ bin0 Hm) in M1, M2.
+  split; [|split; [exact A|]].
+  - unfold y, group_bin. fold a b. unfold bstart, bend in *; cbn [fst snd] in *. lia.
+  - apply coarsen_block_nth; [exact Hk|]. split; [lia|]. apply lt_cdiv_iff; [exact Hk|]. unfold zlen. lia.
+Qed.
+
+Lemma valid_goodblocks NB : ValidBlocks NB -> Forall GoodBlock NB.
+Proof.
+  intros HV. apply Forall_forall. intros b Hb. apply In_nth_error in Hb as [i Hi].
+  destruct (HV i b Hi) as [Hne HT]. split; [exact Hne|eauto].
+Qed.
+
+Section Rebin.
+  Variable blocks : list (list bin).
+  Variable k : Z.
+  Hypothesis Hk : 1 <= k.
+  Hypothesis HV : ValidBlocks blocks.
+  Let NB := map (coarsen_block k) blocks.
+  Let sizes := map chrom_end blocks.
+
+  Lemma NB_valid : ValidBlocks NB.
+  Proof. now destruct (coarsen_bins_spec blocks k Hk HV) as (_ & A & _). Qed.
+  Lemma NB_ends : map chrom_end NB = sizes.
+  Proof. now destruct (coarsen_bins_spec blocks k Hk HV) as (_ & _ & A & _). Qed.
+
+  (** the searchsorted path, whether or not the new table reports a bin size *)
+  Lemma rebin_search_index i blk m x :
+    nth_error blocks i = Some blk -> nth_error blk m = Some x ->
+    rebin_bin_search (concat NB) sizes x = sumZ (firstn i (map zlen NB)) + Z.of_nat m / k.
+  Proof.
+    intros Hi Hm. destruct (HV i blk Hi) as [Hne HT].
+    destruct (group_contains k _ 0 blk m x Hk HT Hm) as (Hin & Hc & Hq).
+    unfold rebin_bin_search. rewrite <- NB_ends at 1. rewrite (start_abspos_sa NB NB_valid).
+    rewrite Hc. unfold chrom_abspos, znth at 1. rewrite Nat2Z.id.
+    rewrite choff_nth by (unfold sizes; rewrite map_length; apply Nat.lt_le_incl, nth_error_Some; congruence).
+    rewrite <- NB_ends.
+    assert (HiNB : nth_error NB i = Some (coarsen_block k blk)) by (unfold NB; rewrite nth_error_map, Hi; reflexivity).
+    replace (sumZ (firstn i (map chrom_end NB)) + bstart x) with (0 + sumZ (firstn i (map chrom_end NB)) + bstart x) by lia.
+    rewrite (ssr_sa NB (valid_goodblocks NB NB_valid) i 0 _ _ _ (bstart x) HiNB Hq Hin).
+    assert (0 <= Z.of_nat m / k) by (apply Z.div_pos; lia). lia.
+  Qed.
+
+  (** the division path, taken when the new table reports a bin size *)
+  Lemma rebin_div_index bs i blk m x :
+    get_binsize (concat NB) = Some bs ->
+    nth_error blocks i = Some blk -> nth_error blk m = Some x ->
+    rebin_bin_div (concat NB) bs x = sumZ (firstn i (map zlen NB)) + Z.of_nat m / k.
+  Proof.
+    intros Hbs Hi Hm. destruct (HV i blk Hi) as [Hne HT].
+    destruct (group_contains k _ 0 blk m x Hk HT Hm) as (Hin & Hc & Hq).
+    destruct (binsize_truthful NB bs NB_valid Hbs) as [Hb Hideal].
+    assert (HiNB : nth_error NB i = Some (coarsen_block k blk)) by (unfold NB; rewrite nth_error_map, Hi; reflexivity).
+    specialize (Hideal i _ HiNB).
+    set (q := Z.of_nat m / k) in *. assert (Hq0 : 0 <= q) by (apply Z.div_pos; lia).
+    assert (Hy : group_bin k blk q = ideal_bin (Z.of_nat i) (chrom_end (coarsen_block k blk)) bs q).
+    { rewrite Hideal in Hq at 1. unfold ideal_chrom in Hq. rewrite nth_error_map in Hq.
+      destruct (nth_error (zrange 0 _) (Z.to_nat q)) as [q'|] eqn:E; [|discriminate].
+      assert (Hlt : (Z.to_nat q < Z.to_nat (cdiv (chrom_end (coarsen_block k blk)) bs))%nat).
+      { rewrite <- (zrange_length 0 (Z.to_nat (cdiv _ bs))). apply nth_error_Some. congruence. }
+      rewrite nth_error_zrange in E by exact Hlt. injection E as <-. cbn in Hq.
+      rewrite Z2Nat.id in Hq by lia. congruence. }
+    rewrite Hy in Hin. unfold ideal_bin, bstart at 1, bend at 1 in Hin; cbn [fst snd] in Hin.
+    unfold rebin_bin_div. rewrite Hc.
+    change (chrom_binoffset (concat NB)) with (chrom_offset (concat NB)). rewrite (chrom_offset_valid NB NB_valid).
+    unfold znth. rewrite Nat2Z.id.
+    rewrite choff_nth by (rewrite map_length; unfold NB; rewrite map_length; apply Nat.lt_le_incl, nth_error_Some; congruence).
+    f_equal. symmetry. apply Z.div_unique_pos with (r := bstart x - q * bs); lia.
+  Qed.
+
+  (** assembling the table *)
+  Lemma itf_blocks (g : bin -> Z) : forall bl off,
+    (forall i blk m x, nth_error bl i = Some blk -> nth_error blk m = Some x ->
+       g x = off + sumZ (firstn i (map (fun b => cdiv (zlen b) k) bl)) + Z.of_nat m / k) ->
+    map g (concat bl) = index_table_from off k (map zlen bl).
+  Proof.
+    induction bl as [|b r IH]; intros off Hg; [reflexivity|].
+    cbn [concat map index_table_from]. rewrite map_app. f_equal.
+    - apply nth_error_ext'. intros m. rewrite !nth_error_map. unfold zlen. rewrite Nat2Z.id.
+      destruct (nth_error b m) as [x|] eqn:E.
+      + rewrite nth_error_zrange by (apply nth_error_Some; congruence). cbn [option_map].
+        rewrite (Hg 0%nat b m x eq_refl E). cbn [firstn sumZ fold_right]. rewrite Z.add_0_l, Z.add_0_r. reflexivity.
+      + assert (H2 : nth_error (zrange 0 (length b)) m = None) by (apply nth_error_None; rewrite zrange_length; now apply nth_error_None).
+        now rewrite H2.
+    - apply IH. intros i blk m x Hi Hm. rewrite (Hg (S i) blk m x Hi Hm).
+      cbn [map firstn]. change (sumZ (cdiv (zlen b) k :: ?l)) with (cdiv (zlen b) k + sumZ l). lia.
+  Qed.
+
+  Lemma NB_lens : map zlen NB = map (fun b => cdiv (zlen b) k) blocks.
+  Proof. now destruct (coarsen_bins_spec blocks k Hk HV) as (_ & _ & _ & A). Qed.
+
+  Theorem rebin_search_table :
+    map (rebin_bin_search (concat NB) sizes) (concat blocks) = index_table (map zlen blocks) k.
+  Proof.
+    unfold index_table. apply itf_blocks. intros i blk m x Hi Hm.
+    rewrite (rebin_search_index i blk m x Hi Hm), NB_lens. lia.
+  Qed.
+
+  Theorem rebin_div_table bs : get_binsize (concat NB) = Some bs ->
+    map (rebin_bin_div (concat NB) bs) (concat blocks) = index_table (map zlen blocks) k.
+  Proof.
+    intros Hbs. unfold index_table. apply itf_blocks. intros i blk m x Hi Hm.
+    rewrite (rebin_div_index bs i blk m x Hbs Hi Hm), NB_lens. lia.
+  Qed.
+
+  (** re-binning by start coordinate, as _aggregate does it, is the index reading *)
+  Theorem rebin_eq_index :
+    rebin_table (concat blocks) sizes k = index_table (map zlen blocks) k.
+  Proof.
+    unfold rebin_table, sizes. destruct (coarsen_bins_spec blocks k Hk HV) as (-> & _).
+    fold NB. fold sizes. unfold rebin_bin. destruct (get_binsize (concat NB)) as [bs|] eqn:E.
+    - apply (rebin_div_table bs E).
+    - apply rebin_search_table.
+  Qed.
+End Rebin.
+
+(* ====================================================== C08 top-level theorems *)
+Definition InRangeRows (n : Z) (px : list pixel) : Prop := Forall (fun p => 0 <= row p < n) px.
+
+Lemma valid_lens blocks : ValidBlocks blocks -> Forall (fun n => 1 <= n) (map zlen blocks).
+Proof.
+  intros HV. apply Forall_forall. intros n Hn. apply in_map_iff in Hn as [b [<- Hb]].
+  apply In_nth_error in Hb as [i Hi]. destruct (HV i b Hi) as [Hne _].
+  unfold zlen. destruct b; [congruence|cbn; lia].
+Qed.
+
+(** coarsen_cooler's pixel table is the canonical aggregate of the pixels re-keyed by INDEX
+    (old bin m of chromosome c -> new_off c + m / k), for every chunk size and batch size *)
+Theorem coarsen_canon blocks px k cs bs :
+  1 <= k -> 1 <= cs -> 1 <= bs -> ValidBlocks blocks ->
+  RowSorted px -> InRangeRows (zlen (concat blocks)) px ->
+  coarsen_pixels (concat blocks) (map chrom_end blocks) px k cs bs = coarsen_spec (map zlen blocks) px k.
+Proof.
+  intros Hk Hcs Hbs HV HS Hr. unfold coarsen_pixels, coarsener_edges, coarsen_spec.
+  rewrite (rebin_eq_index blocks k Hk HV), (chrom_offset_valid blocks HV), zlen_concat.
+  apply coarsen_stream_canon; auto.
+  - now apply valid_lens.
+  - unfold InRangeRows in Hr. now rewrite zlen_concat in Hr.
+Qed.
+
+Corollary coarsen_is_canon blocks px k cs bs :
+  1 <= k -> 1 <= cs -> 1 <= bs -> ValidBlocks blocks ->
+  RowSorted px -> InRangeRows (zlen (concat blocks)) px ->
+  Canon (map (rekey (index_table (map zlen blocks) k)) px)
+        (coarsen_pixels (concat blocks) (map chrom_end blocks) px k cs bs).
+Proof. intros. rewrite coarsen_canon by assumption. apply aggregate_canon. Qed.
+
+Corollary coarsen_chunk_independent blocks px k cs1 bs1 cs2 bs2 :
+  1 <= k -> 1 <= cs1 -> 1 <= bs1 -> 1 <= cs2 -> 1 <= bs2 -> ValidBlocks blocks ->
+  RowSorted px -> InRangeRows (zlen (concat blocks)) px ->
+  coarsen_pixels (concat blocks) (map chrom_end blocks) px k cs1 bs1 =
+  coarsen_pixels (concat blocks) (map chrom_end blocks) px k cs2 bs2.
+Proof. intros. now rewrite !coarsen_canon by assumption. Qed.
+
+(* ------------------------------------------------------------------ totals *)
+Definition total (l : list pixel) : Z := sumZ (map val l).
+
+Lemma total_cons k v l : total ((k, v) :: l) = v + total l.
+Proof. reflexivity. Qed.
+
+Lemma total_ins k v l : total (ins k v l) = total l + v.
+Proof.
+  induction l as [|[k0 v0] t IH]; cbn [ins]; [rewrite total_cons; unfold total; cbn; lia|].
+  destruct (kcmp k k0); rewrite ?total_cons, ?IH; lia.
+Qed.
+
+Lemma total_aggregate l : total (aggregate l) = total l.
+Proof.
+  unfold aggregate.
+  assert (H : forall acc, total (fold_left (fun acc p => ins (fst p) (snd p) acc) l acc) = total acc + total l).
+  { induction l as [|[k v] l IH]; intros acc; cbn [fold_left]; [unfold total; cbn; lia|].
+    rewrite IH, total_ins, total_cons. cbn [fst snd]. lia. }
+  rewrite H. unfold total. cbn. lia.
+Qed.
+
+Lemma total_rekey tbl l : total (map (rekey tbl) l) = total l.
+Proof. unfold total. rewrite map_map. reflexivity. Qed.
+
+Theorem coarsen_total blocks px k cs bs :
+  1 <= k -> 1 <= cs -> 1 <= bs -> ValidBlocks blocks ->
+  RowSorted px -> InRangeRows (zlen (concat blocks)) px ->
+  total (coarsen_pixels (concat blocks) (map chrom_end blocks) px k cs bs) = total px.
+Proof.
+  intros. rewrite coarsen_canon by assumption. unfold coarsen_spec.
+  now rewrite total_aggregate, total_rekey.
+Qed.
+
+(* =================================================== composition and merging *)
+Lemma cdiv_cdiv n k1 k2 : 0 <= n -> 1 <= k1 -> 1 <= k2 -> cdiv (cdiv n k1) k2 = cdiv n (k1 * k2).
+Proof.
+  intros Hn H1 H2. unfold cdiv.
+  replace (n + k1 * k2 - 1) with ((n - 1) + k2 * k1) by lia.
+  rewrite <- Z.div_div by lia. rewrite Z.div_add by lia.
+  replace (n + k1 - 1) with ((n - 1) + 1 * k1) by lia. rewrite Z.div_add by lia.
+  f_equal. lia.
+Qed.
+
+Lemma itf_compose k1 k2 : 1 <= k1 -> 1 <= k2 ->
+  forall lens, Forall (fun n => 0 <= n) lens ->
+  forall P off1 off, zlen P = off1 ->
+  map (fun v => znth (P ++ index_table_from off k2 (map (fun n => cdiv n k1) lens)) v 0)
+      (index_table_from off1 k1 lens) = index_table_from off (k1 * k2) lens.
+Proof.
+  intros H1 H2. induction 1 as [|n r Hn HF IH]; intros P off1 off HP; [reflexivity|].
+  cbn [index_table_from map]. rewrite map_app. f_equal.
+  - rewrite map_map. apply map_ext_in. intros m Hm. apply in_zrange in Hm.
+    assert (Hq : 0 <= m / k1 < cdiv n k1).
+    { split; [apply Z.div_pos; lia|]. apply div_lt_cdiv; lia. }
+    unfold znth, zlen in *. rewrite app_nth2 by lia.
+    replace (Z.to_nat (off1 + m / k1) - length P)%nat with (Z.to_nat (m / k1)) by lia.
+    rewrite app_nth1 by (rewrite map_length, zrange_length; lia).
+    rewrite (nth_error_nth _ _ 0 (x := off + (m / k1) / k2)).
+    + rewrite Z.div_div by lia. reflexivity.
+    + rewrite nth_error_map, nth_error_zrange by lia. cbn. do 3 f_equal. lia.
+  - rewrite <- (cdiv_cdiv n k1 k2) by lia.
+    rewrite <- (IH (P ++ map (fun m => off + m / k2) (zrange 0 (Z.to_nat (cdiv n k1)))) (off1 + cdiv n k1) (off + cdiv (cdiv n k1) k2)).
+    + rewrite <- app_assoc. reflexivity.
+    + unfold zlen in *. rewrite app_length, map_length, zrange_length.
+      assert (0 <= cdiv n k1) by (unfold cdiv; nia). lia.
+Qed.
+
+(** index tables compose: k1 then k2 is k1*k2 *)
+Theorem index_table_compose lens k1 k2 : 1 <= k1 -> 1 <= k2 -> Forall (fun n => 0 <= n) lens ->
+  map (fun v => znth (index_table (map (fun n => cdiv n k1) lens) k2) v 0) (index_table lens k1)
+  = index_table lens (k1 * k2).
+Proof.
+  intros H1 H2 HF. unfold index_table.
+  apply (itf_compose k1 k2 H1 H2 lens HF [] 0 0). reflexivity.
+Qed.
+
+(** re-keying the pixels through any key map commutes with canonical aggregation *)
+Definition mapkey (gk : key -> key) (p : pixel) : pixel := (gk (fst p), snd p).
+
+Lemma look_map_ins gk k v acc k' :
+  look (map (mapkey gk) (ins k v acc)) k' =
+  (match kcmp k' (gk k) with Eq => v | _ => 0 end) + look (map (mapkey gk) acc) k'.
+Proof.
+  induction acc as [|[k0 v0] t IH]; cbn [ins map look mapkey fst snd]; [lia|].
+  destruct (kcmp k k0) eqn:E; cbn [map look mapkey fst snd].
+  - apply kcmp_eq in E. subst k0. destruct (kcmp k' (gk k)); lia.
+  - lia.
+  - rewrite IH. lia.
+Qed.
+
+Lemma keys_map_ins gk k v acc k' :
+  In k' (keys (map (mapkey gk) (ins k v acc))) <-> k' = gk k \/ In k' (keys (map (mapkey gk) acc)).
+Proof.
+  unfold keys. rewrite !map_map. cbn [mapkey fst].
+  change (map (fun x => gk (fst x)) ?l) with (map (fun x => gk (fst x)) l).
+  rewrite !in_map_iff. split.
+  - intros [p [<- Hp]]. assert (Hk := proj1 (keys_ins k v acc (fst p)) (in_map fst _ _ Hp)).
+    destruct Hk as [->|Hk]; [now left|right]. apply in_map_iff in Hk as [p' [E Hp']]. exists p'. split; [now rewrite E|exact Hp'].
+  - intros [->|[p [<- Hp]]].
+    + assert (Hk := proj2 (keys_ins k v acc k) (or_introl eq_refl)). apply in_map_iff in Hk as [p' [E Hp']].
+      exists p'. split; [now rewrite E|exact Hp'].
+    + assert (Hk := proj2 (keys_ins k v acc (fst p)) (or_intror (in_map fst _ _ Hp))).
+      apply in_map_iff in Hk as [p' [E Hp']]. exists p'. split; [now rewrite E|exact Hp'].
+Qed.
+
+Theorem aggregate_mapkey gk l :
+  aggregate (map (mapkey gk) (aggregate l)) = aggregate (map (mapkey gk) l).
+Proof.
+  apply (canon_unique (map (mapkey gk) l)); [|apply aggregate_canon].
+  assert (H : forall acc,
+     let r := fold_left (fun acc p => ins (fst p) (snd p) acc) l acc in
+     (forall k', look (map (mapkey gk) r) k' = look (map (mapkey gk) acc) k' + look (map (mapkey gk) l) k') /\
+     (forall k', In k' (keys (map (mapkey gk) r)) <-> In k' (keys (map (mapkey gk) acc)) \/ In k' (keys (map (mapkey gk) l)))).
+  { induction l as [|[k v] l IH]; intros acc; cbn [fold_left].
+    - split; intros k'; cbn; [lia|tauto].
+    - destruct (IH (ins k v acc)) as [A B]. cbn zeta in A, B. cbn [fst snd]. split; intros k'.
+      + rewrite A, look_map_ins. cbn [map look mapkey fst snd]. lia.
+      + rewrite B, keys_map_ins. cbn [map keys mapkey fst snd In]. unfold keys. cbn [map fst]. intuition. }
+  destruct (H []) as [A B]. cbn zeta in A, B. fold (aggregate l) in A, B.
+  destruct (aggregate_canon (map (mapkey gk) (aggregate l))) as (S' & K' & L').
+  split; [exact S'|]. split.
+  - intros k'. rewrite K', B. cbn. tauto.
+  - intros k'. rewrite L', A. cbn. lia.
+Qed.
+
+Definition gkey (tbl : list Z) (kk : key) : key := (znth tbl (fst kk) 0, znth tbl (snd kk) 0).
+Lemma rekey_mapkey tbl l : map (rekey tbl) l = map (mapkey (gkey tbl)) l.
+Proof. apply map_ext. intros p. reflexivity. Qed.
+
+Definition InRange (n : Z) (px : list pixel) : Prop :=
+  Forall (fun p => 0 <= row p < n /\ 0 <= col p < n) px.
+
+(** coarsening by k1 and then by k2 is coarsening by k1*k2 (index level, any bin widths) *)
+Theorem coarsen_spec_compose lens px k1 k2 :
+  1 <= k1 -> 1 <= k2 -> Forall (fun n => 0 <= n) lens -> InRange (sumZ lens) px ->
+  coarsen_spec (map (fun n => cdiv n k1) lens) (coarsen_spec lens px k1) k2 = coarsen_spec lens px (k1 * k2).
+Proof.
+  intros H1 H2 HF Hr. unfold coarsen_spec.
+  rewrite (rekey_mapkey (index_table (map (fun n => cdiv n k1) lens) k2)), aggregate_mapkey, <- rekey_mapkey.
+  f_equal. rewrite map_map. apply map_ext_in. intros p Hp.
+  unfold InRange in Hr. rewrite Forall_forall in Hr. destruct (Hr p Hp) as [Rr Rc].
+  pose proof (index_table_compose lens k1 k2 H1 H2 HF) as Hc.
+  assert (Hlen : zlen (index_table lens k1) = sumZ lens) by (unfold index_table; now apply itf_length).
+  assert (Hz : forall i, 0 <= i < sumZ lens ->
+            znth (index_table (map (fun n => cdiv n k1) lens) k2) (znth (index_table lens k1) i 0) 0
+            = znth (index_table lens (k1 * k2)) i 0).
+  { intros i Hi. rewrite <- Hc. unfold znth at 3.
+    symmetry. apply nth_error_nth. rewrite nth_error_map.
+    rewrite (nth_error_nth' (index_table lens k1) 0) by (unfold zlen in Hlen; lia). reflexivity. }
+  unfold rekey, row, col, val. cbn [fst snd]. rewrite !Hz by assumption. reflexivity.
+Qed.
+
+(** coarsening commutes with merging (merge = canonical aggregate of the concatenated inputs) *)
+Theorem coarsen_merge_commute lens a b k :
+  coarsen_spec lens (aggregate (a ++ b)) k = aggregate (coarsen_spec lens a k ++ coarsen_spec lens b k).
+Proof.
+  unfold coarsen_spec. set (T := index_table lens k).
+  rewrite (rekey_mapkey T (aggregate (a ++ b))), aggregate_mapkey, <- rekey_mapkey, map_app.
+  rewrite aggregate_app_agg.
+  rewrite (aggregate_perm (map (rekey T) a ++ aggregate (map (rekey T) b)) (aggregate (map (rekey T) b) ++ map (rekey T) a))
+    by apply Permutation_app_comm.
+  rewrite aggregate_app_agg. apply aggregate_perm, Permutation_app_comm.
+Qed.
+
+Lemma cdiv_mul_ge n k : 1 <= k -> n <= cdiv n k * k.
+Proof. intros. unfold cdiv. nia. Qed.
+
+Lemma coarsen_block_nth_default k blk q : 1 <= k -> 0 <= q < cdiv (zlen blk) k ->
+  nth (Z.to_nat q) (coarsen_block k blk) bin0 = group_bin k blk q.
+Proof. intros Hk Hq. apply nth_error_nth. now apply coarsen_block_nth. Qed.
+
+(** bin tables compose exactly *)
+Theorem coarsen_block_compose k1 k2 blk : 1 <= k1 -> 1 <= k2 ->
+  coarsen_block k2 (coarsen_block k1 blk) = coarsen_block (k1 * k2) blk.
+Proof.
+  intros H1 H2. set (n := zlen blk). assert (Hn : 0 <= n) by (unfold n, zlen; lia).
+  set (N1 := cdiv n k1).
+  assert (HN1 : zlen (coarsen_block k1 blk) = N1) by now apply coarsen_block_length.
+  unfold coarsen_block at 1 3. rewrite HN1. fold n. unfold N1. rewrite cdiv_cdiv by lia.
+  apply map_ext_in. intros q Hq. apply in_zrange in Hq.
+  assert (H12 : 1 <= k1 * k2) by nia.
+  assert (Hq' : 0 <= q < cdiv n (k1 * k2)) by lia.
+  assert (Hqk : q * (k1 * k2) < n) by (apply lt_cdiv_iff; lia).
+  assert (Hge : n <= N1 * k1) by now apply cdiv_mul_ge.
+  assert (Hq2 : 0 <= q * k2 < N1) by (split; [nia|]; apply lt_cdiv_iff; [lia|]; nia).
+  assert (HN1pos : 1 <= N1) by lia.
+  unfold group_bin at 1. rewrite HN1.
+  replace (Z.to_nat (q * k2)) with (Z.to_nat (q * k2)) by reflexivity.
+  rewrite (coarsen_block_nth_default k1 blk (q * k2) H1 ltac:(fold n; fold N1; lia)).
+  set (j := Z.min (q * k2 + k2) N1 - 1).
+  assert (Hj : 0 <= j < N1) by (unfold j; lia).
+  rewrite (coarsen_block_nth_default k1 blk j H1 ltac:(fold n; fold N1; lia)).
+  unfold group_bin. fold n. unfold bchrom, bstart, bend; cbn [fst snd].
+  replace (q * k2 * k1) with (q * (k1 * k2)) by lia.
+  replace (Z.min (j * k1 + k1) n) with (Z.min (q * (k1 * k2) + k1 * k2) n); [reflexivity|].
+  unfold j. destruct (Z_le_gt_dec (q * k2 + k2) N1) as [Hle|Hgt].
+  - rewrite (Z.min_l (q * k2 + k2) N1) by lia. f_equal. lia.
+  - rewrite (Z.min_r (q * k2 + k2) N1) by lia.
+    rewrite !Z.min_r; [reflexivity| |]; nia.
+Qed.
+
+Lemma itf_upper k lens : 1 <= k -> Forall (fun n => 0 <= n) lens ->
+  forall off v, In v (index_table_from off k lens) -> v < off + sumZ (map (fun n => cdiv n k) lens).
+Proof.
+  intros Hk. induction 1 as [|n r Hn HF IH]; intros off v Hv; [inversion Hv|].
+  cbn [index_table_from map] in *. change (sumZ (cdiv n k :: ?l)) with (cdiv n k + sumZ l).
+  assert (0 <= sumZ (map (fun n0 => cdiv n0 k) r)).
+  { apply sumZ_nonneg. apply Forall_forall. intros x Hx. apply in_map_iff in Hx as [y [<- Hy]].
+    rewrite Forall_forall in HF. specialize (HF y Hy). unfold cdiv. nia. }
+  apply in_app_or in Hv as [Hv|Hv].
+  - apply in_map_iff in Hv as [m [<- Hm]]. apply in_zrange in Hm.
+    pose proof (div_lt_cdiv m n k Hk ltac:(lia)). lia.
+  - apply IH in Hv. lia.
+Qed.
+
+Lemma index_table_range lens k i : 1 <= k -> Forall (fun n => 0 <= n) lens -> 0 <= i < sumZ lens ->
+  0 <= znth (index_table lens k) i 0 < sumZ (map (fun n => cdiv n k) lens).
+Proof.
+  intros Hk HF Hi. unfold index_table.
+  assert (Hin : In (znth (index_table_from 0 k lens) i 0) (index_table_from 0 k lens)).
+  { unfold znth. apply nth_In. pose proof (itf_length k lens HF 0) as Hl. unfold zlen in Hl. lia. }
+  pose proof (itf_lower k lens Hk HF 0 _ Hin). pose proof (itf_upper k lens Hk HF 0 _ Hin). lia.
+Qed.
+
+Lemma coarsen_spec_inrange lens px k : 1 <= k -> Forall (fun n => 0 <= n) lens -> InRange (sumZ lens) px ->
+  InRange (sumZ (map (fun n => cdiv n k) lens)) (coarsen_spec lens px k).
+Proof.
+  intros Hk HF Hr. unfold InRange, coarsen_spec in *. apply Forall_forall. intros p Hp.
+  destruct (aggregate_canon (map (rekey (index_table lens k)) px)) as (_ & K & _).
+  assert (Hk' : In (fst p) (keys (aggregate (map (rekey (index_table lens k)) px)))) by (apply in_map; exact Hp).
+  apply K in Hk'. unfold keys in Hk'. rewrite map_map in Hk'. apply in_map_iff in Hk' as [p0 [E Hp0]].
+  rewrite Forall_forall in Hr. destruct (Hr p0 Hp0) as [Rr Rc].
+  unfold row, col. rewrite <- E. cbn [rekey fst snd].
+  split; apply index_table_range; auto.
+Qed.
+
+Lemma inrange_rows n px : InRange n px -> InRangeRows n px.
+Proof. unfold InRange, InRangeRows. apply Forall_impl. tauto. Qed.
+
+(** the model of coarsen_cooler composes: k1 then k2 = k1*k2, bins and pixels, for every valid
+    (fixed or variable) bin table and any chunk/batch sizes *)
+Theorem coarsen_compose blocks px k1 k2 cs1 bs1 cs2 bs2 cs bs :
+  1 <= k1 -> 1 <= k2 -> 1 <= cs1 -> 1 <= bs1 -> 1 <= cs2 -> 1 <= bs2 -> 1 <= cs -> 1 <= bs ->
+  ValidBlocks blocks -> RowSorted px -> InRange (zlen (concat blocks)) px ->
+  let sizes := map chrom_end blocks in
+  let c1 := coarsen_cooler (concat blocks) sizes px k1 cs1 bs1 in
+  coarsen_cooler (fst c1) sizes (snd c1) k2 cs2 bs2 = coarsen_cooler (concat blocks) sizes px (k1 * k2) cs bs.
+Proof.
+  intros H1 H2 Hc1 Hb1 Hc2 Hb2 Hc Hb HV HS Hr sizes c1.
+  assert (H12 : 1 <= k1 * k2) by nia.
+  destruct (coarsen_bins_spec blocks k1 H1 HV) as (E1 & V1 & Ends1 & Lens1).
+  set (NB1 := map (coarsen_block k1) blocks) in *.
+  assert (Hlens : Forall (fun n => 0 <= n) (map zlen blocks)).
+  { eapply Forall_impl; [|exact (valid_lens blocks HV)]. intros; cbn in *; lia. }
+  pose proof Hr as Hr'. rewrite zlen_concat in Hr'.
+  destruct (coarsen_bins_spec NB1 k2 H2 V1) as (E2 & _). rewrite Ends1 in E2.
+  destruct (coarsen_bins_spec blocks (k1 * k2) H12 HV) as (E12 & _).
+  pose proof (coarsen_spec_inrange (map zlen blocks) px k1 H1 Hlens Hr') as Hr1.
+  assert (P1 : coarsen_pixels (concat blocks) (map chrom_end blocks) px k1 cs1 bs1 = coarsen_spec (map zlen blocks) px k1)
+    by (apply coarsen_canon; auto using inrange_rows).
+  assert (P12 : coarsen_pixels (concat blocks) (map chrom_end blocks) px (k1 * k2) cs bs = coarsen_spec (map zlen blocks) px (k1 * k2))
+    by (apply coarsen_canon; auto using inrange_rows).
+  assert (P2 : coarsen_pixels (concat NB1) (map chrom_end blocks) (coarsen_spec (map zlen blocks) px k1) k2 cs2 bs2
+               = coarsen_spec (map zlen NB1) (coarsen_spec (map zlen blocks) px k1) k2).
+  { rewrite <- Ends1. apply coarsen_canon; auto.
+    - apply ssorted_rowsorted. unfold coarsen_spec. now destruct (aggregate_canon (map (rekey (index_table (map zlen blocks) k1)) px)).
+    - apply inrange_rows. rewrite zlen_concat, Lens1, <- (map_map zlen (fun n => cdiv n k1)). exact Hr1. }
+  unfold c1, coarsen_cooler, sizes. cbn [fst snd]. rewrite E1, E2, E12, P1, P12, P2. f_equal.
+  - f_equal. unfold NB1. rewrite map_map. apply map_ext. intros blk. now apply coarsen_block_compose.
+  - rewrite Lens1. rewrite <- (map_map zlen (fun n => cdiv n k1)). now apply coarsen_spec_compose.
+Qed.
+
+(* executable hypotheses *)
+Lemma inrange_b_sound n px : inrange_b n px = true -> InRange n px.
+Proof.
+  unfold inrange_b, InRange. rewrite forallb_forall, Forall_forall. intros H p Hp.
+  specialize (H p Hp). lia.
+Qed.
+Lemma ssorted_b_rowsorted px : ssorted_b px = true -> RowSorted px.
+Proof. intros H. apply ssorted_rowsorted. now apply ssorted_b_spec. Qed.
